@@ -9,6 +9,7 @@ import ZnVerif.Ops.C17
 import ZnVerif.Ops.C06
 import ZnVerif.Ops.C19
 import ZnVerif.Ops.C14
+import ZnVerif.Ops.C11
 
 open ZnVerif.Ops
 
@@ -20,7 +21,8 @@ def handlers : List (String → List String → Option String) := [
   C17.handle,
   C06.handle,
   C19.handle,
-  C14.handle
+  C14.handle,
+  C11.handle
 ]
 
 def dispatch (op : String) (args : List String) : String :=
